@@ -107,4 +107,27 @@ theorem launchable_length (s : Scenario) (ridKey : String) (R : Reqs) (l : List 
     simp only [List.map_cons, List.filterMap_cons, hs, List.filter_cons, hP, if_true, List.length_cons]
     rw [ih (fun it hit => hcat it (List.mem_cons_of_mem _ hit)) (fun it hit => hl it (List.mem_cons_of_mem _ hit))]
 
+/-! ### Price tables per NodePool -/
+
+open Karp.Spec.Consolidation (poolView combinedPriceT Tables)
+
+/-- a NodePool's view changes the catalog only -/
+theorem poolView_node? (t : Tables) (s : Scenario) (p n : String) : (poolView t s p).node? n = s.node? n := by
+  unfold poolView
+  cases t.lookup p <;> rfl
+
+/-- without tables every NodePool is charged the scenario's catalog -/
+theorem poolView_nil (s : Scenario) (p : String) : poolView [] s p = s := rfl
+
+/-- the specification's combined price, each node at its own NodePool's price, is the model's price sum over candidates
+    that carry their own NodePool's offerings -/
+theorem combinedPriceT_eq (t : Tables) (s : Scenario) (nodes : List Scn.Node) (h : ∀ n ∈ nodes, s.node? n.name = some n) :
+    combinedPriceT t s (nodes.map (·.name)) = sumPrices (nodes.map (fun n => candOf (poolView t s n.pool) n)) := by
+  unfold combinedPriceT sumPrices
+  rw [filterMap_nodes s nodes h, List.map_map]
+  congr 1
+  apply List.map_congr_left
+  intro n _
+  exact price_eq (poolView t s n.pool) n
+
 end Karp.Consolidate
